@@ -2373,6 +2373,48 @@ def check_getters(chk, rt):
                   'model types %s are registered but no getter asks for them' % unreachable, rc.node.lineno)
 
 
+def recognizer_constructions(rt, mod, call):
+    """the expression a model getter is invoked on -> (recogniser Cls, [constructor calls in the caller's terms],
+    (helper Mod, helper FunctionDef) | None).  Either `Recognizer(...)` itself or one level of module-level helper
+    `h(...)` that constructs the recogniser; the helper is inlined (its parameters replaced by the call's arguments,
+    locals expanded).  None when neither."""
+    if not isinstance(call, ast.Call):
+        return None
+    rc = rt.idx.resolve_class(mod, call.func)
+    if rc is not None and rc in rt.recognizers:
+        return rc, [call], None
+    if not isinstance(call.func, ast.Name):
+        return None
+    r = rt.idx.resolve(mod, call.func.id)
+    if not r or r[0] != 'func':
+        return None
+    hmod, h = r[1], r[2]
+    what = '%s %s' % (hmod.rel, h.name)
+    b = bind_call(call, h, what, method=False)
+    for q, d in defaults_of(h, method=False).items():
+        b.setdefault(q, d)
+    pe = PathEnum(h, what)
+    found, seen, rcs = [], set(), set()
+
+    class S(ast.NodeTransformer):
+        def visit_Name(self, n):
+            if isinstance(n.ctx, ast.Load) and n.id in b:
+                return copy.deepcopy(b[n.id])
+            return n
+    for p in pe.paths:
+        for e in path_nodes(p):
+            for n in ast.walk(e):
+                if isinstance(n, ast.Call) and id(n) not in seen:
+                    c = rt.idx.resolve_class(hmod, n.func)
+                    if c is not None and c in rt.recognizers:
+                        seen.add(id(n))
+                        rcs.add(c)
+                        found.append(S().visit(p.expand(n)))
+    if len(rcs) != 1:
+        return None
+    return rcs.pop(), found, (hmod, h)
+
+
 def judge_helper(chk, rt, rc, mod, fname, fn):
     """one public recognize_* function: culture / options / fallback / query (/ reference) reach the right places"""
     construct = fname
@@ -2416,22 +2458,23 @@ def judge_helper(chk, rt, rc, mod, fname, fn):
         for gp in params_of(gfn):
             if gp not in gb:
                 problems.append('getter %s is not passed (default used)' % gp)
-        rcall = g.func.value
-        if not (isinstance(rcall, ast.Call) and rt.idx.resolve_class(mod, rcall.func) is rc):
-            problems.append('the getter is not called on a fresh %s' % rc.name)
+        src = recognizer_constructions(rt, mod, g.func.value)
+        if src is None or src[0] is not rc or not src[1]:
+            problems.append('the getter is not called on a %s constructed here or in one module-level helper' % rc.name)
             continue
         ik, ifn = rt.idx.find_method(rc, '__init__')
-        rb = bind_call(rcall, ifn, '%s recogniser construction' % fname)
         iroles = (rt.init_info.get(rc.qual) or {}).get('roles') or {q: classify_param(q) for q in params_of(ifn)}
-        got = {}
-        for q, a in rb.items():
-            r = iroles.get(q)
-            r = 'culture' if r == 'target_culture' else r
-            got[r] = a
-        for r in ('culture', 'options'):
-            a = got.get(r)
-            if not (isinstance(a, ast.Name) and kind.get(a.id) == r):
-                problems.append('%s(%s <- %s)' % (rc.name, r, 'default' if a is None else ast.unparse(a)))
+        for rcall in src[1]:
+            rb = bind_call(rcall, ifn, '%s recogniser construction' % fname)
+            got = {}
+            for q, a in rb.items():
+                r = iroles.get(q)
+                r = 'culture' if r == 'target_culture' else r
+                got[r] = a
+            for r in ('culture', 'options'):
+                a = got.get(r)
+                if not (isinstance(a, ast.Name) and kind.get(a.id) == r):
+                    problems.append('%s(%s <- %s)' % (rc.name, r, 'default' if a is None else ast.unparse(a)))
         forms.add('%s($culture, $options).%s($culture, $fallback).parse($query%s)'
                   % (rc.name, g.func.attr, ', $reference' if 'reference' in inv else ''))
     chk.judge(not problems, 'C17.helper', mod.path, construct,
@@ -2439,15 +2482,128 @@ def judge_helper(chk, rt, rc, mod, fname, fn):
               '%s does not forward its arguments: %s' % (fname, '; '.join(sorted(set(problems)))), fn.lineno)
 
 
+def entry_points(rt, rc):
+    """module-level functions of a recogniser module that end in `<model>.parse(...)` and obtain the model from rc,
+    constructed in the function or in one module-level helper it calls"""
+    mod = rc.mod
+    builders = {name for name, fn in mod.funcs.items()
+                if any(isinstance(c, ast.Call) and rt.idx.resolve_class(mod, c.func) is rc for c in ast.walk(fn))}
+    out = []
+    for fname, fn in sorted(mod.funcs.items()):
+        calls = [c for c in ast.walk(fn) if isinstance(c, ast.Call)]
+        if not any(isinstance(c.func, ast.Attribute) and c.func.attr == 'parse' for c in calls):
+            continue
+        if fname in builders or any(isinstance(c.func, ast.Name) and c.func.id in builders for c in calls):
+            out.append((fname, fn))
+    return out
+
+
 def check_helpers(chk, rt):
     n = 0
     for rc in rt.recognizers:
-        mod = rc.mod
-        for fname, fn in sorted(mod.funcs.items()):
-            if any(isinstance(c, ast.Call) and rt.idx.resolve_class(mod, c.func) is rc for c in ast.walk(fn)):
-                n += 1
-                judge_helper(chk, rt, rc, mod, fname, fn)
+        for fname, fn in entry_points(rt, rc):
+            n += 1
+            judge_helper(chk, rt, rc, rc.mod, fname, fn)
     return n
+
+
+# ---- memo discipline: any module- or class-level dict used as a memo between the entry points and ModelFactory ----------
+
+def _dict_value(v):
+    return isinstance(v, ast.Dict) or (isinstance(v, ast.Call) and isinstance(v.func, ast.Name)
+                                       and v.func.id in ('dict', 'OrderedDict', 'defaultdict', 'WeakValueDictionary'))
+
+
+def memo_containers(mod):
+    """names bound at module level, and (class, attribute) bound at class level, to a dict"""
+    names, attrs = set(), set()
+    for st in mod.tree.body:
+        if isinstance(st, ast.Assign) and _dict_value(st.value):
+            names |= {t.id for t in st.targets if isinstance(t, ast.Name)}
+        elif isinstance(st, ast.AnnAssign) and st.value is not None and _dict_value(st.value) and isinstance(st.target, ast.Name):
+            names.add(st.target.id)
+    for c in mod.classes.values():
+        for a, v in c.attrs.items():
+            if _dict_value(v):
+                attrs.add((c.name, a))
+    return names, attrs
+
+
+def memo_findings(mod, fn, owner, names, attrs):
+    """[(ok|None, container, detail, msg, line)] for every write of a constructed value into a module/class level dict in fn:
+    the parameters the value is built from must occur in the key"""
+    def container(e):
+        if isinstance(e, ast.Name) and e.id in names:
+            return e.id
+        if isinstance(e, ast.Attribute) and isinstance(e.value, ast.Name):
+            a = e.attr
+            for cn, an in attrs:
+                if a in (an, '_%s%s' % (cn, an)) and (e.value.id in ('self', 'cls') and owner == cn or e.value.id == cn):
+                    return '%s.%s' % (cn, an)
+        return None
+    writes = []
+    for n in ast.walk(fn):
+        if isinstance(n, ast.Subscript) and isinstance(n.ctx, ast.Store) and container(n.value):
+            writes.append(n)
+        elif isinstance(n, ast.Call) and isinstance(n.func, ast.Attribute) and n.func.attr == 'setdefault' and container(n.func.value):
+            writes.append(n)
+    if not writes:
+        return []
+    what = '%s %s%s' % (mod.rel, owner + '.' if owner else '', fn.name)
+    pe = PathEnum(fn, what)
+    ps = set(params_of(fn, method=owner is not None))
+    out, seen = [], set()
+    for p in pe.paths:
+        pairs = []
+        for ev in p.events:
+            if ev[0] == 'store' and isinstance(ev[1], ast.Subscript) and container(ev[1].value):
+                pairs.append((container(ev[1].value), ev[1].slice, ev[2], ev[3]))
+        for e in path_nodes(p):
+            for n in ast.walk(e):
+                if isinstance(n, ast.Call) and isinstance(n.func, ast.Attribute) and n.func.attr == 'setdefault' \
+                        and container(n.func.value) and len(n.args) == 2:
+                    pairs.append((container(n.func.value), n.args[0], n.args[1], n.lineno))
+        for cont, key, val, line in pairs:
+            kx, vx = p.expand(key), p.expand(val)
+            sig = (cont, dump(kx), dump(vx))
+            if sig in seen:
+                continue
+            seen.add(sig)
+            kp = sorted(names_in(kx) & ps)
+            vp = sorted(names_in(vx) & ps)
+            if isinstance(vx, ast.Name) and vx.id in ps:
+                out.append((None, cont, 'stores its parameter %s under key(%s)' % (vx.id, ', '.join(kp)),
+                            'stores a caller-supplied object: the key discipline is the caller\'s (C17.triple for the model cache)', line))
+                continue
+            missing = [q for q in vp if q not in kp]
+            out.append((not missing, cont, 'key(%s) -> value built from (%s)' % (', '.join(kp), ', '.join(vp)),
+                        'memo %s is keyed by (%s) only, the value also depends on %s: a later call with another %s is served '
+                        'the object built for the first' % (cont, ', '.join(kp), ', '.join(missing), '/'.join(missing)), line))
+    return out
+
+
+def check_memos(chk, rt):
+    mods = {m.name: m for m in [rt.culture_mod, rt.model_mod, rt.recognizer_mod] + [rc.mod for rc in rt.recognizers]}
+    for m in sorted(mods.values(), key=lambda x: x.name):
+        names, attrs = memo_containers(m)
+        if not names and not attrs:
+            continue
+        fns = [(None, f) for f in m.funcs.values()] + [(c.name, f) for c in m.classes.values() for f in c.methods.values()
+                                                       if isinstance(f, (ast.FunctionDef, ast.AsyncFunctionDef))]
+        for owner, f in fns:
+            for ok, cont, detail, msg, line in memo_findings(m, f, owner, names, attrs):
+                construct = '%s%s -> %s' % (owner + '.' if owner else '', f.name, cont)
+                if ok is None:
+                    chk.exempt('C17.memo', m.path, construct, msg, detail, line)
+                else:
+                    chk.judge(ok, 'C17.memo', m.path, construct, detail, msg, line)
+    ctl = ast.parse("_made = dict()\n\n\ndef get(culture, options):\n    r = _made.get(culture)\n    if r is None:\n"
+                    "        r = Thing(culture, options)\n        _made[culture] = r\n    return r\n")
+    twin = ast.parse("_made = dict()\n\n\ndef get(culture, options):\n    return _made.setdefault((culture, options), Thing(culture, options))\n")
+    fake = type('M', (), {'rel': 'control', 'tree': None})()
+    bad = memo_findings(fake, ctl.body[1], None, {'_made'}, set())
+    good = memo_findings(fake, twin.body[1], None, {'_made'}, set())
+    chk.control('C17.memo', any(f[0] is False for f in bad) and all(f[0] is True for f in good) and bool(good))
 
 
 MUTATORS = {'clear', 'pop', 'popitem', 'update', 'setdefault', '__setitem__', '__delitem__'}
@@ -2662,6 +2818,7 @@ def run(chk):
     R('C17.reg-options', 'components that take options receive the lambda parameter', 15)
     R('C17.getter', 'every getter asks for a name registered for English and forwards culture and fallback', 30)
     R('C17.helper', 'recognize_* helpers forward culture, options, fallback, query and reference', 12)
+    R('C17.memo', 'a module- or class-level dict memo is keyed by every parameter its constructed value depends on', 1)
     chk.assume('no monkey patching of Culture / ModelFactory / Recognizer at run time; IntFlag option values compare as ints')
     idx = get_index()
     rt = Routing(idx)
@@ -2683,6 +2840,7 @@ def run(chk):
     check_registrations(chk, rt)
     check_getters(chk, rt)
     check_helpers(chk, rt)
+    check_memos(chk, rt)
     controls(chk, rt)
     chk.exhaustive = True
     chk.extra['registrations'] = len(registrations(rt))
